@@ -23,11 +23,20 @@ Fixpoint lookup_l {B} (t : list (string * B)) (n : str) : option B :=
 
 Definition canon (s : state) : state := set_bind s (sort_binds (st_bind s)).
 
+(* does the instruction [n] not apply in [b] ?  0 applies / 1 an operand is lacking / 2 operands there, guard fails *)
+Definition unfired_class {FO : FloatOps} (nd : need) (n : str) (b : state) : Z :=
+  if lacking_in nd b then 1
+  else match lookup_l gd_all n with
+       | Some g => if g b then 2 else 0
+       | None => 0
+       end.
+
 Definition pm_frame_check (c : sx) : sx :=
   match c with
-  | SL [SL [_; _; st; SZ 0; SZ 1; _]; observed] =>
-      match un_state st with
-      | Some s =>
+  | SL [SL [_; tab; st; SZ 0; SZ 1; _]; observed] =>
+      match un_state st, un_libm tab with
+      | Some s, Some tab =>
+          let FO := flocq_ops tab in
           match st_exec s with
           | IInstr n :: r =>
               match lookup_l fp_all n, lookup_l nd_all n with
@@ -35,7 +44,9 @@ Definition pm_frame_check (c : sx) : sx :=
                   match observed with
                   | SL [SZ 0; SL [_; st']] =>
                       match un_state st' with
-                      | Some s' => sx_bool (frame_verdict m nd (canon (set_exec s r)) (canon s'))
+                      | Some s' =>
+                          let b := canon (set_exec s r) in
+                          sx_bool (frame_verdict m (negb (unfired_class nd n b =? 0)) b (canon s'))
                       | None => sx_bad
                       end
                   | _ => SZ 0
@@ -44,7 +55,28 @@ Definition pm_frame_check (c : sx) : sx :=
               end
           | _ => SZ 2
           end
-      | None => sx_bad
+      | _, _ => sx_bad
+      end
+  | _ => sx_bad
+  end.
+
+(* "frame.class": how the specification classifies a case (for the coverage accounting and the
+   self-check of the generators of checks/C10.py): 0 applies / 1 lacking / 2 guard fails / 3 not an instruction *)
+Definition pm_frame_class (c : sx) : sx :=
+  match c with
+  | SL [_; tab; st; SZ 0; SZ 1; _] =>
+      match un_state st, un_libm tab with
+      | Some s, Some tab =>
+          let FO := flocq_ops tab in
+          match st_exec s with
+          | IInstr n :: r =>
+              match lookup_l nd_all n with
+              | Some nd => SL [SZ 0; SZ (unfired_class nd n (canon (set_exec s r)))]
+              | None => SL [SZ 0; SZ 3]
+              end
+          | _ => SL [SZ 0; SZ 3]
+          end
+      | _, _ => sx_bad
       end
   | _ => sx_bad
   end.
